@@ -21,7 +21,7 @@ func C07(c *Ctx) {
 	c.Assume("for grammars with throw/recover only the 'silently accepted' direction is decided (pigeon's static treatment of recovery expressions is a convention that may reject more); a cycle guarded by an always-false predicate has no dynamic witness and is not reported")
 	rng := rand.New(rand.NewSource(c.Seed*887 + 7))
 	ng := c.N(400, 6000)
-	gs := append(c07Strata(), c07NullableRep()...)
+	gs := append(append(c07Strata(), c07NullableRep()...), c07WithUnicode()...)
 	for i := 0; i < ng; i++ {
 		if i%4 == 3 {
 			// throw/recover grammars: only the "silently accepted" direction is decided for them
@@ -192,6 +192,13 @@ func (c *Ctx) c07Chunk(gs []*gast.Grammar, rng *rand.Rand) {
 		w := infos[accIdx[k]].witness
 		if !u.OK {
 			c.CovSet("witness_unit_not_built", shortFail(u.Fail))
+			if u.Gen.Exit == 0 && !u.Skip {
+				// pigeon exited 0 for a grammar in which the model re-enters a rule on a concrete input, and
+				// what it wrote is not even a parser: the grammar was not rejected with a build error
+				g := accepted[k]
+				c.Report(&Violation{Class: "C07/silently-accepted", Summary: fmt.Sprintf("pigeon exits 0 without -support-left-recursion for a left-recursive grammar (the model re-enters %s on input %q, entrypoint %q) and its output does not build (%s); grammar %q",
+					w.reentry, w.in, w.entry, shortFail(u.Fail), gast.Short(g)), Grammar: u.Text, Input: w.in, Sig: c07Sig(g, "accepted")})
+			}
 			continue
 		}
 		cases = append(cases, &mon.Case{ID: fmt.Sprintf("dbg/%d", k), Pkg: u.Pkg, Input: w.in, Entry: w.entry, Debug: true, MaxExpr: 3000, MaxEvents: 10})
@@ -392,6 +399,21 @@ func (c *Ctx) runKnownC07() {
 // back to the enclosing rule. The analysis sees a cycle (the repetition can succeed without
 // consuming); whether the run time spins in the repetition until the budget ends or leaves it after an
 // empty iteration, the rule behind it must not be entered again at the same offset.
+// c07WithUnicode: plainly left-recursive grammars (direct, indirect, behind a nullable prefix) that also
+// use Unicode classes, inverted classes and caseless matchers somewhere - the rejection does not depend
+// on what else the builder has to emit for the grammar.
+func c07WithUnicode() []*gast.Grammar {
+	mk := func(rules ...*gast.Rule) *gast.Grammar { return &gast.Grammar{Rules: rules} }
+	r := func(n string, e *gast.Expr) *gast.Rule { return &gast.Rule{Name: n, Expr: e} }
+	ul := func(n ...string) *gast.Expr { return gast.Cl(&gast.ClassSpec{UClasses: n}) }
+	return []*gast.Grammar{
+		mk(r("S", gast.C(gast.S(gast.Ref("S"), ul("L")), gast.L("x")))),
+		mk(r("A", gast.C(gast.S(gast.Ref("B"), gast.L("x")), ul("N"))), r("B", gast.S(gast.Ref("A"), ul("Lu", "Nd")))),
+		mk(r("S", gast.S(gast.Ref("W"), gast.C(gast.S(gast.Ref("S"), gast.L("+")), gast.Ref("I")))), r("W", gast.Star(ul("Zs"))), r("I", gast.Plus(gast.Cl(&gast.ClassSpec{UClasses: []string{"Ll"}, Chars: []rune("_"), IgnoreCase: true})))),
+		mk(r("S", gast.C(gast.S(gast.Opt(gast.Li("é")), gast.Ref("S"), gast.L("!")), gast.Cl(&gast.ClassSpec{UClasses: []string{"Greek"}, Inverted: true})))),
+	}
+}
+
 func c07NullableRep() []*gast.Grammar {
 	mk := func(rules ...*gast.Rule) *gast.Grammar { return &gast.Grammar{Rules: rules} }
 	r := func(n string, e *gast.Expr) *gast.Rule { return &gast.Rule{Name: n, Expr: e} }
